@@ -307,7 +307,9 @@ def local_gp_fitting(
 
     # Empirical prior on covariance signal variance ((output scale)
     if options["warp_func"] == 0:
-        sd_y = np.log(np.std(gp.y))
+        # floor at the smallest normal number: a single or constant training
+        # value must not turn the prior mean into -inf (NaN hyperparameters)
+        sd_y = np.log(np.maximum(np.std(gp.y), np.finfo(np.float64).tiny))
     else:
         # TODO warp function (Matlab  gpdefbads line-code 302)
         pass
